@@ -2027,6 +2027,9 @@ class FnTranslator:
         else:
             recur = "%s%s fuel %s" % (name, cap_args, st_in)
         lctx = LoopCtx(self, out_state, recur, has_ret, ret_ty)
+        # a `loop` without `break` is only left through `return`: its helper returns the value itself, not an `Option`
+        direct = kind == "loop" and has_ret and not contains_kind(s.body, ("break",), stop=LOOP_KINDS)
+        lctx.direct = direct
         try:
             body = Code()
             if kind == "for":
@@ -2050,7 +2053,7 @@ class FnTranslator:
         finally:
             self.scopes, self.tail_expected = saved_scopes, saved_tail
             self.loop_depth -= 1
-        out_tys = [v.ty for v in out_state] + ([TOption(ret_ty)] if has_ret else [])
+        out_tys = [v.ty for v in out_state] + ([ret_ty if direct else TOption(ret_ty)] if has_ret else [])
         res_ty = paren_ty(tuple_ty(out_tys))
         st_ty = paren_ty(tuple_ty([v.ty for v in state]))
         if kind == "for":
@@ -2093,6 +2096,8 @@ class FnTranslator:
             return
         r = self.tmp()
         code.bind(tuple_pat(outs + [r]), ("call", call))
+        if direct:
+            return ctx.ret_val(r, code, s)
         v = self.tmp()
         some, none = Code(), Code()
         ctx.ret_val(v, some, s)
@@ -2194,6 +2199,7 @@ class LoopCtx:
 
     def __init__(self, tr, out_state, recur, has_ret, ret_ty):
         self.tr, self.out_state, self.recur, self.has_ret, self.ret_ty = tr, out_state, recur, has_ret, ret_ty
+        self.direct = False
 
     def cur(self, where):
         return [self.tr.lookup(v.rust, where).lean for v in self.out_state]
@@ -2210,10 +2216,10 @@ class LoopCtx:
         val, t = self.tr.expr(e, code, self.ret_ty)
         if not ty_compatible(t, self.ret_ty):
             self.tr.err("the returned expression has type %r, the spec declares %r" % (t, self.ret_ty), e)
-        code.final = ("pure", tuple_val(self.cur(where) + ["some " + atom(val)]))
+        code.final = ("pure", tuple_val(self.cur(where) + [val if self.direct else "some " + atom(val)]))
 
     def ret_val(self, v, code, where):
-        code.final = ("pure", tuple_val(self.cur(where) + ["some " + atom(v)]))
+        code.final = ("pure", tuple_val(self.cur(where) + [v if self.direct else "some " + atom(v)]))
 
 
 class FnCtx:
@@ -2562,6 +2568,22 @@ unit(name="SrcKmpNext", props="property C08", file="src/pattern_matching/kmp.rs"
                      calls={"self.kmp.delta": dict(lean="RbV.Gen.SrcKmpLps.delta", self_args=["kmp.m", "kmp.lps", "kmp.pattern"],
                                                    args=["usize", "u8"], ret="usize")},
                      params=[], ret="Option<usize>", theorem="RbV.Thm.GenSrcKmpNext.next_eq_model")])
+
+
+unit(name="SrcHorspoolNext", props="property C08", file="src/pattern_matching/horspool.rs",
+     aliases={"TextSlice": "&[u8]"},
+     functions=[dict(name="Horspool::find_all", lean="findAll",
+                     header="pub fn find_all<'b>(&'b self, text: TextSlice<'b>) -> Matches<'_>",
+                     self_fields=[("m", "usize"), ("pattern", "TextSlice")],
+                     params=[("text", "TextSlice")], ret="(TextSlice, usize, usize, u8)",
+                     struct_fields={"Matches": [("text", "TextSlice"), ("n", "usize"), ("last", "usize"), ("pattern_last", "u8")]},
+                     theorem="RbV.Thm.GenSrcHorspoolNext.findAll_init"),
+                dict(name="Matches::next", lean="next", header="fn next(&mut self) -> Option<usize>",
+                     self_fields=[("horspool.shift", "Vec<usize>"), ("horspool.m", "usize"), ("horspool.pattern", "TextSlice"),
+                                  ("text", "TextSlice"), ("n", "usize"), ("last", "usize"), ("pattern_last", "u8")],
+                     # both loops advance `last` by a table entry (>= 1 for the table `Horspool::new` builds) per round
+                     fuel=["n - last + 1", "n - last + 1"],
+                     params=[], ret="Option<usize>", theorem="RbV.Thm.GenSrcHorspoolNext.next_eq_model")])
 
 
 # ================================================================================================== self-test
